@@ -23,11 +23,19 @@ def run_main(sb_dir, case, variant):
                     'file_extensions_in_modules': st.get('ext_modules', False)}}
     if st.get('headers'): cfgd['rst']['headers'] = list(st['headers'])
     for f, v in ((st.get('cfg') or {}).get('incl') or {}).items(): cfgd['input']['include_undocumented_' + f] = v
+    pats = [pt.replace('{INP}', p) for pt in case.get('patterns', [])]
+    # the exclude patterns come from all three sources at once; their union applies (order: command line, -s file, user file)
+    k1 = len(pats) // 3; k2 = 2 * len(pats) // 3
+    cli_p, s_p, u_p = (pats[:k1 + (1 if len(pats) % 3 else 0)], pats[k1 + (1 if len(pats) % 3 else 0):k2 + (1 if len(pats) % 3 else 0)], pats[k2 + (1 if len(pats) % 3 else 0):]) if len(pats) >= 2 else (pats, [], [])
+    if s_p: cfgd['input']['exclude_filters'] = s_p
     with open(sfile, 'w') as f: f.write(yaml.safe_dump(cfgd))
+    if u_p:
+        os.makedirs(os.path.join(home, '.config', 'cminx'), exist_ok=True)
+        with open(os.path.join(home, '.config', 'cminx', 'config.yaml'), 'w') as f: f.write(yaml.safe_dump({'input': {'exclude_filters': u_p}}))
     args = [p, '-s', sfile]
     if st['recursive']: args.append('-r')
     if st.get('prefix') is not None: args += ['-p', st['prefix']]
-    for pt in case.get('patterns', []): args += ['-e', pt.replace('{INP}', p)]
+    for pt in cli_p: args += ['-e', pt]
     out_abs = None
     if case.get('output') is not None:
         out_abs = os.path.join(base, 'out'); args += ['-o', out_abs]
@@ -66,6 +74,7 @@ def cli_suite(prop, seed, count, out, drv):
         case['inputs'] = case['inputs'][:1]; case.pop('target', None)
         case['inputs'][0]['spelled'] = 'abs'
         case['output'] = None if prop == 'C18' else 'abs'
+        if prop == 'C15' and len(case.get('patterns', [])) < 2: case['patterns'] = list(case.get('patterns', [])) + ['*.txt', 'b.cmake', 'sub/']
         if case['settings'].get('cfg') and case['settings']['cfg'].get('trigger') is not None: case['settings']['cfg'].pop('trigger', None)
         key = (prop, 'cli', seed, n)
         with impl.Sandbox() as sb:
